@@ -277,19 +277,6 @@ fn cases(full: bool) -> Vec<Case> {
     v
 }
 
-/// the AC-canonicaliser on the pairs of equally named outputs; [pair_agree] is the instance of the theorem for every pair
-/// whose flag is true (the flags are computed, then the computation is re-checked by the kernel in [pair_canon_eq])
-const CANON_BODY: &str = r#"
-Definition pair_canon : list bool := Eval vm_compute in canon_eqbs A_prog B_prog C_zs C_piA C_piB C_outs.
-Lemma pair_canon_eq : canon_eqbs A_prog B_prog C_zs C_piA C_piB C_outs = pair_canon.
-Proof. vm_compute. reflexivity. Qed.
-Definition pair_agree (k : nat) (Hk : (k < List.length C_outs)%nat) (H : nth k pair_canon false = true) (env : list R) :=
-  C09_canonical_programs_agree A_prog B_prog C_zs C_piA C_piB _ _ env
-    (canon_eqbs_nth A_prog B_prog C_zs C_piA C_piB C_outs k Hk (eq_ind_r (fun l => nth k l false = true) H pair_canon_eq)).
-Check pair_agree.
-Eval vm_compute in ("CANON", "P", pair_canon).
-"#;
-
 const BODY: &str = r#"
 Open Scope list_scope.
 Definition A_n := (NVA + List.length A_consts)%nat.
@@ -369,38 +356,9 @@ pub fn run(out_dir: &str, tier: &str, seed: u64, only: Option<String>) -> Value 
         );
         let mut canon_names: Vec<String> = Vec::new();
         if let Some((nv, sa, sb, zv)) = &c.canon {
-            // shared environment: the shared state variables, then the distinct constant values of both programs
-            let mut vals: Vec<f64> = Vec::new();
-            let mut slot = |x: f64| -> usize {
-                match vals.iter().position(|y| *y == x) {
-                    Some(i) => nv + i,
-                    None => {
-                        vals.push(x);
-                        nv + vals.len() - 1
-                    }
-                }
-            };
-            let mut pia = sa.clone();
-            pia.extend(pa0.consts.iter().map(|&x| slot(x)));
-            let mut pib = sb.clone();
-            pib.extend(pb0.consts.iter().map(|&x| slot(x)));
-            let mut zs: Vec<bool> = zv.clone();
-            zs.extend(vals.iter().map(|x| *x == 0.0));
-            let nl = |l: &[usize]| l.iter().map(|i| format!("{i}%nat")).collect::<Vec<_>>().join("; ");
-            v.push_str("From FeosVerif Require Import Canon.\n");
-            v.push_str(&format!("Definition C_zs : list bool := [{}].\n", zs.iter().map(|b| b.to_string()).collect::<Vec<_>>().join("; ")));
-            v.push_str(&format!("Definition C_piA : list nat := [{}].\nDefinition C_piB : list nat := [{}].\n", nl(&pia), nl(&pib)));
-            // pairs of outputs with the same name (contributions; the last one is the total): positions in the value lists
-            let (na, nb) = (pa0.outs.len(), pb0.outs.len());
-            let mut pairs = Vec::new();
-            for (ja, name) in pa0.outs.iter().enumerate() {
-                if let Some(jb) = pb0.outs.iter().position(|x| x == name) {
-                    pairs.push(format!("({}, {})%nat", na - 1 - ja, nb - 1 - jb));
-                    canon_names.push(name.clone());
-                }
-            }
-            v.push_str(&format!("Definition C_outs : list (nat * nat) := [{}].\n", pairs.join("; ")));
-            v.push_str(CANON_BODY);
+            let (text, names) = emit::canon_block(&pa0, &pb0, *nv, sa, sb, zv, "C09_canonical_programs_agree");
+            v.push_str(&text);
+            canon_names = names;
         }
         if c.expect_identical {
             v.push_str("Lemma pair_identical : prog_eqb A_prog B_prog = true.\nProof. vm_compute. reflexivity. Qed.\nDefinition pair_agree := C09_identical_programs_agree A_prog B_prog pair_identical.\nCheck pair_agree.\n");
